@@ -486,6 +486,34 @@ func (w *world) faults(t *rt.Tape, res *core.Result, smp *sample) *core.Failure 
 	smp.Mode, smp.Format, smp.Circuit, smp.Bytes = "damaged-file", []string{"mpclc", "bristol"}[format], gen.Describe(base), len(data)
 	rnd := simrand.Stream("mut")
 	rt.LogBytes('f', data)
+	if len(data) <= 260 && t.Choose(rt.SFault, 4) == 0 {
+		// exhaustive single-fault enumeration of this file: every truncation
+		// length and every single-bit flip
+		res.Reach["exhaustive-single-fault-files"]++
+		smp.Mode = "damaged-file (all truncations and all single-bit flips of one file)"
+		for i := 0; i < len(data)+len(data)*8; i++ {
+			m := append([]byte(nil), data...)
+			var desc string
+			if i < len(data) {
+				m = m[:i]
+				desc = fmt.Sprintf("truncate to %d", i)
+				res.Faults["truncate"]++
+			} else {
+				bit := i - len(data)
+				m[bit/8] ^= 1 << (bit % 8)
+				desc = fmt.Sprintf("flip bit %d", bit)
+				res.Faults["bit-flip"]++
+			}
+			if !declaredSizesOK(format, m) {
+				res.Reach["discarded: declared size above one million"]++
+				continue
+			}
+			if f := judge(res, smp, format, m, data, base, desc, 0); f != nil {
+				return f
+			}
+		}
+		return nil
+	}
 	n := 100 + t.Choose(rt.SFault, 900)
 	// dense local enumeration: a window of consecutive truncation lengths and bit positions
 	winStart := t.Choose(rt.SFault, len(data))
@@ -632,27 +660,35 @@ func (w *world) faults(t *rt.Tape, res *core.Result, smp *sample) *core.Failure 
 		if t.Choose(rt.SFault, 4) == 0 {
 			rmode = 2
 		}
-		pr := safeParse(format, m, rmode, 0)
-		where := fmt.Sprintf("%s file of %d bytes (%s), damage: %s", smp.Format, len(data), gen.Describe(base), desc)
-		switch {
-		case pr.hung:
-			return &core.Failure{Clause: "parse-hangs", Detail: fmt.Sprintf("%s: the parse did not return within %v (the reader reported EOF %d times)", where, hangLimit, pr.eofs)}
-		case pr.eofs > 1000:
-			return &core.Failure{Clause: "parse-hangs", Detail: fmt.Sprintf("%s: the parser kept calling Read %d times after EOF", where, pr.eofs)}
-		case pr.panicV != nil:
-			smp.Faults = []string{desc}
-			return &core.Failure{Clause: "panic", Detail: fmt.Sprintf("%s: panic: %v\n%s", where, pr.panicV, pr.stack)}
-		case pr.allocNo:
-			res.Reach["allocation refused (not a verdict)"]++
-		case pr.err != nil:
-			res.Reach["rejected-with-error"]++
-		default:
-			if bad := wellFormed(pr.circ); bad != "" {
-				smp.Faults = []string{desc}
-				return &core.Failure{Clause: "accepted-malformed", Detail: fmt.Sprintf("%s: the parser returned a circuit without error, but %s", where, bad)}
-			}
-			res.Reach["accepted-well-formed"]++
+		if f := judge(res, smp, format, m, data, base, desc, rmode); f != nil {
+			return f
 		}
+	}
+	return nil
+}
+
+// judge parses one damaged file and applies the property's outcome set.
+func judge(res *core.Result, smp *sample, format int, m, data []byte, base *circuit.Circuit, desc string, rmode int) *core.Failure {
+	pr := safeParse(format, m, rmode, 0)
+	where := fmt.Sprintf("%s file of %d bytes (%s), damage: %s", smp.Format, len(data), gen.Describe(base), desc)
+	switch {
+	case pr.hung:
+		return &core.Failure{Clause: "parse-hangs", Detail: fmt.Sprintf("%s: the parse did not return within %v (the reader reported EOF %d times)", where, hangLimit, pr.eofs)}
+	case pr.eofs > 1000:
+		return &core.Failure{Clause: "parse-hangs", Detail: fmt.Sprintf("%s: the parser kept calling Read %d times after EOF", where, pr.eofs)}
+	case pr.panicV != nil:
+		smp.Faults = []string{desc}
+		return &core.Failure{Clause: "panic", Detail: fmt.Sprintf("%s: panic: %v\n%s", where, pr.panicV, pr.stack)}
+	case pr.allocNo:
+		res.Reach["allocation refused (not a verdict)"]++
+	case pr.err != nil:
+		res.Reach["rejected-with-error"]++
+	default:
+		if bad := wellFormed(pr.circ); bad != "" {
+			smp.Faults = []string{desc}
+			return &core.Failure{Clause: "accepted-malformed", Detail: fmt.Sprintf("%s: the parser returned a circuit without error, but %s", where, bad)}
+		}
+		res.Reach["accepted-well-formed"]++
 	}
 	return nil
 }
